@@ -12,6 +12,7 @@
  * EXPECT-FAIL: MRG2 merge_patch
  * EXPECT-FAIL: MRG3 merge_patch
  * EXPECT-FAIL: MRG4 merge_patch
+ * EXPECT-FAIL: NUMU compare_json
  * EXPECT-FAIL: GEN1 create_patches
  */
 #include "cJSON.h"
@@ -380,3 +381,21 @@ static void bad_OUT6_indexed(char *s) { size_t r = 0; size_t w = 0; while (s[r] 
 static void bad_OUT6_memcpy_overlap(char *s) { char *r = s; char *w = s; while (*r == ' ') { r++; } memcpy(w, r, strlen(r) + 1); }
 static void good_memmove_shift(char *s) { char *r = s; char *w = s; while (*r == ' ') { r++; } memmove(w, r, strlen(r) + 1); }
 static void good_indexed(char *s) { size_t r = 0; size_t w = 0; while (s[r] != '\0') { if (s[r] != ' ') { s[w] = s[r]; w++; } r++; } s[w] = '\0'; }
+
+/* NUMU: numbers count as equal on the integer part alone */
+static cJSON_bool compare_double(double a, double b) { double d = a - b; if (d < 0) { d = -d; } return d <= 1e-9; }
+static cJSON_bool compare_json(cJSON *a, cJSON *b, const cJSON_bool case_sensitive)
+{
+    (void)case_sensitive;
+    if ((a == NULL) || (b == NULL) || ((a->type & 0xFF) != (b->type & 0xFF))) { return 0; }
+    switch (a->type & 0xFF)
+    {
+        case cJSON_Number:
+            if (a->valueint == b->valueint) { return 1; }
+            return compare_double(a->valuedouble, b->valuedouble);
+        default:
+            break;
+    }
+    return 1;
+}
+int use_compare_json(cJSON *a, cJSON *b) { return compare_json(a, b, 1); }
